@@ -183,8 +183,8 @@ ADD5 = {
  "C11": "SCTP pass (one inbound, one outbound model).",
  "C12": "SCTP pass (6 models); three persistent peers of which the first has no addresses.",
  "C13": "SCTP pass (5 models).",
- "C14": "Outbound probe in the outbound-handshake scenarios: a persistent peer that lost its connection is dialled again after the reconnect wait, completes the handshake and is served.",
- "C15": "A remainder pending behind a partial write (peer stopped reading) when the next messages are queued and the peer reads again (bound 2).",
+ "C14": "Outbound probe in the outbound-handshake scenarios: a persistent peer that lost its connection is dialled again after the reconnect wait, completes the handshake and is served; inbound and outbound handshake scenarios also over SCTP.",
+ "C15": "A remainder pending behind a partial write (peer stopped reading) when the next messages are queued and the peer reads again (bound 2); four configurations on an SCTP association (the sctp_send branch of the send path).",
  "C16": "2 / 3 connections with equal hop-by-hop start values, selection callback picking each peer in turn, own requests around a watchdog round: identifiers distinct per connection.",
  "C17": "Two Node objects one after the other in one process (what the first answered is nothing the second has answered), run before anything is explored.",
  "C18": "SCTP cases (listener bound with bindx, accepted and dialled SCTP sockets); schedule exploration of the DPA's arrival (line points in receive_dpa / PeerConnection.close).",
